@@ -103,6 +103,12 @@ def build_checked(tree, cx, vars_, errors):
     r = -a if t == "neg" else a * tree[2]
     if rep(a) != ra:
         errors.append("%s altered its operand" % t)
+    if t == "mul" and isinstance(tree[2], bool):
+        # Python's True / False are the integers 1 / 0 (the runtime hands them through as scalars: x * (n > 3)): the product is
+        # the same object content, and the same text where the backend writes its combinations out as text
+        r1 = a * int(tree[2])
+        if rep(r) != rep(r1) or (type(r).__str__ is not object.__str__ and str(r) != str(r1)):
+            errors.append("scaling by %r gives %r (text %r), scaling by %d gives %r (text %r)" % (tree[2], rep(r), str(r)[:80], int(tree[2]), rep(r1), str(r1)[:80]))
     return r
 
 
@@ -228,7 +234,7 @@ def algebra_shard(name, seed, n_examples):
                     return [draw(st.sampled_from(["add", "sub"])), tree(dep + 1), tree(dep + 1)]
                 if k == 6:
                     return ["neg", tree(dep + 1)]
-                return ["mul", tree(dep + 1), draw(st.one_of(st.integers(-3, 3), st.integers(0, p - 1),
+                return ["mul", tree(dep + 1), draw(st.one_of(st.integers(-3, 3), st.integers(0, p - 1), st.booleans(),
                                                              st.sampled_from([0, -1, p, p + 1, -p, 2 * p + 1, 1 << 256, (1 << 300) + 1, -(1 << 257)])))]
             t = wide_tree() if wide else tree(0)
             case = {"config": name, "part": "algebra", "vars": vars_, "tree": t}
